@@ -10,7 +10,7 @@ def _c19_units(tier, seed):
     add('asan-i64', 'C19', 'sdcz', 600, 5000, 100)
     add('msan', 'C19', 'sdcz', 600, 8000, 50)
     vg = ['valgrind', '-q', '--error-exitcode=95', '--track-origins=no', '--num-callers=12']
-    add('plain', 'C19', 'dz', 12, 400, 4, wrapper=vg, env={'VF_NOJUNK': '1'}, cpu=120, wall=1800)
+    add('plain', 'C19', 'dz', 12, 400, 1, wrapper=vg, env={'VF_NOJUNK': '1'}, cpu=120, wall=1800)
     # other properties' workloads under MemorySanitizer: uninitialised-value clause on drivers, histories, ILU
     add('msan', 'C01', 'dz', 150, 5000, 50)
     add('msan', 'C05', 'dz', 150, 5000, 50)
@@ -22,8 +22,8 @@ def _c19_units(tier, seed):
     # storage-acquisition variants incl. the capacity walk (every growth site at the exactly-full state) under ASan: memory-class keys only
     add('asan', 'C07', 'sdcz', 600, 6000, 25, cpu=20)
     if tier:
-        add('plain', 'C05', 'd', 0, 100, 4, wrapper=vg, env={'VF_NOJUNK': '1'}, cpu=120, wall=1800)
-        add('plain', 'C15', 'd', 0, 100, 4, wrapper=vg, env={'VF_NOJUNK': '1'}, cpu=120, wall=1800)
+        add('plain', 'C05', 'd', 0, 100, 1, wrapper=vg, env={'VF_NOJUNK': '1'}, cpu=120, wall=1800)
+        add('plain', 'C15', 'd', 0, 100, 1, wrapper=vg, env={'VF_NOJUNK': '1'}, cpu=120, wall=1800)
     return u
 
 _VG = _re.compile(r'==\d+== (Invalid (?:read|write) of size \d+|Conditional jump or move depends on uninitialised value\(s\)|Use of uninitialised value of size \d+|Invalid free\(\) / delete / delete\[\] / realloc\(\)|Syscall param .*? uninitialised byte\(s\)|Mismatched free\(\).*|Source and destination overlap.*)\n((?:==\d+==    (?:at|by) .*\n)+)')
@@ -32,13 +32,14 @@ def _c19_post(allcases, soft, tier):
     viol, seen = [], {}
     nrep = 0
     for ch, txt in soft:
+        sm = _re.search(r'@@VF-SUFFIX (\S*)', txt); sfx = sm.group(1) if sm else ''      # notes of the (single) case the worker ran
         for m in _VG.finditer(txt):
             nrep += 1
             kind = _re.sub(r' of size \d+', '', m.group(1)); kind = _re.sub(r'\s+', '-', kind.strip())[:50]
             frames = [f for f in _FR.findall(m.group(2))]
             lib = [f[0] for f in frames if _re.match(r'[sdcz]?[a-z_0-9]+\.c$', f[1]) and not f[1].startswith(('c0', 'c1', 'c2', 'vf_', 'fact', 'core', 'gen', 'ref', 'api'))]
             if not lib: continue     # harness-only stacks are not library findings
-            key = 'valgrind:%s@%s' % (kind, '>'.join(lib[:2]))
+            key = 'valgrind:%s@%s' % (kind, '>'.join(lib[:2])) + sfx
             if key in seen: seen[key] += 1; continue
             seen[key] = 1
             viol.append((ch, None, key, 'valgrind memcheck: %s in %s (chunk starting at case %d)' % (m.group(1), '>'.join(lib[:3]), ch['start'])))
